@@ -46,8 +46,7 @@ class AbsCopula(object):
 
     def _key(self):
         if self.theta is None:
-            from pyvc.interp import PyRaise, make_exc
-            raise PyRaise(make_exc('NotFittedError', 'This model is not fitted.'))
+            raise engine.paths.Unsupported('abstract copula used before theta was set')
         return [self.fam.t, self.theta.t if isinstance(self.theta, Sym) else ir.const(self.theta)]
 
     def sym_getattr(self, interp, name):
